@@ -182,4 +182,53 @@ theorem embedsNeeded_spec (p p' : List PNode) (hwf : WF p) (σ : Nat → Nat) (w
     · intro g hg r hr
       exact needed_closed p hwf _ k n hk hn _ (mem_refs_sub hg hr)
 
+theorem isArg_cons_of_older {n : PNode} {older : List PNode} {a : Nat} (h : isArg older a = true) :
+    isArg (n :: older) a = true := by
+  unfold isArg at h ⊢
+  cases hn : nodeAt older a with
+  | none => rw [hn] at h; cases h
+  | some pn =>
+    have hlt := nodeAt_lt hn
+    have hne : ¬ a = older.length := by omega
+    simp only [nodeAt, if_neg hne]
+    rw [hn] at h ⊢
+    exact h
+
+theorem isArg_head_of_label_none {n : PNode} {older : List PNode} (h : n.kind.label? = none) :
+    isArg (n :: older) older.length = true := by
+  unfold isArg
+  simp only [nodeAt, if_true]
+  cases hk : n.kind with
+  | arg => rfl
+  | init l => rw [hk] at h; cases h
+  | op l => rw [hk] at h; cases h
+
+/-- **A binding is read at argument ids only.**  Two bindings that agree on every id whose node is an `arg`
+    give the same table (all values of all nodes, bodies included: the rebinding of body formals preserves the
+    agreement).  No well-formedness needed. -/
+theorem table_congr_args (S : Sem Val) (p : List PNode) (b b' : Nat → Val)
+    (h : ∀ a, isArg p a = true → b a = b' a) : table S p b = table S p b' := by
+  induction p generalizing b b' with
+  | nil => rfl
+  | cons n older ih =>
+    have hold : ∀ (c c' : Nat → Val), (∀ a, isArg (n :: older) a = true → c a = c' a) →
+        table S older c = table S older c' :=
+      fun c c' hc => ih c c' (fun a ha => hc a (isArg_cons_of_older ha))
+    rw [table_cons, table_cons, hold b b' h]
+    congr 1
+    unfold nodeVal
+    cases hl : n.kind.label? with
+    | none =>
+      simp only
+      rw [h _ (isArg_head_of_label_none hl)]
+    | some l =>
+      simp only
+      rw [hold b b' h]
+      congr 1
+      apply List.map_congr_left
+      intro g _
+      funext vals
+      rw [hold (updArgs b g.args vals) (updArgs b' g.args vals)
+        (fun a ha => updArgs_congr b b' g.args vals a (h a ha))]
+
 end Prog
